@@ -244,6 +244,34 @@ impl EnfWorld {
             "m.m" => { self.spec.m.push((f[1].to_string(), unesc(f[3]))); return "ok".into(); }
             "m.tbl" => { return "ok".into(); }
             "e.cached" => { self.cached = f[1] == "true"; return "ok".into(); }
+            "e.newpre" => {
+                // the model handed to the constructor was filled beforehand through an adapter-level filtered load;
+                // the adapter handed to it is a plain (unfiltered) one over the same store
+                self.conf = self.spec.conf();
+                let mut a1 = self.mk_adapter(rt, f[1], f[2], f[3]);
+                self.events.lock().clear();
+                self.kept_rm = None;
+                let conf = self.conf.clone();
+                let cached = self.cached;
+                let (fp, fg) = (dec_list(f[4]), dec_list(f[5]));
+                let pre = catch(|| rt.block_on(async {
+                    let mut m = DefaultModel::from_str(&conf).await?;
+                    let filt = Filter { p: fp.iter().map(|s| s.as_str()).collect(), g: fg.iter().map(|s| s.as_str()).collect() };
+                    a1.load_filtered_policy(&mut m, filt).await?;
+                    Ok::<DefaultModel, casbin::Error>(m)
+                }));
+                let m = match pre { None => return "panic".into(), Some(Err(e)) => { self.enf = None; return format!("err:{}", err_kind(&e)); } Some(Ok(m)) => m };
+                let a2 = self.mk_adapter(rt, f[1], f[2], f[3]);
+                let r = catch(|| rt.block_on(async {
+                    if cached { Ok::<E, casbin::Error>(E::Cached(CachedEnforcer::new(m, FaultyBox(a2)).await?)) }
+                    else { Ok(E::Plain(Enforcer::new(m, FaultyBox(a2)).await?)) }
+                }));
+                return match r {
+                    None => "panic".into(),
+                    Some(Err(e)) => { self.enf = None; format!("err:{}", err_kind(&e)) }
+                    Some(Ok(e)) => { self.enf = Some(e); "ok".into() }
+                };
+            }
             "e.new" => {
                 self.conf = self.spec.conf();
                 let a = self.mk_adapter(rt, f[1], f[2], f[3]);
